@@ -3,6 +3,7 @@
    and chunk lines are the parsers of Properties_C01/C02 (shared code); an error in the response head
    is flagged, so it is reported invalid even on the last byte of a read. *)
 From Via Require Import M_Char M_Parse M_Receive P_Parse.
+From Via Require Import M_Client P_Client.
 Local Open Scope N_scope.
 
 Theorem C07_status_line_fragments : forall L a r b, sl_valid r = false ->
@@ -42,5 +43,14 @@ Example C07_example_status_line :
   sl_parse L sl_init (a ++ b) = (let '(r1, _, _) := sl_parse L sl_init a in sl_parse L r1 b).
 Proof. vm_compute. split; reflexivity. Qed.
 
+(* ---- the client over its connection ---- *)
+(* a connect after any previous session starts from a clean connection (nothing of the old session makes the
+   new one stop reading or report a disconnection) *)
+Theorem C07_client_connect_starts_clean : forall o k rf, k_connected k = false ->
+  let k1 := fst (fst (k_do_connect o k rf)) in
+  k_transmitting k1 = false /\ k_disc_pending k1 = false /\ k_shutdown_sent k1 = false.
+Proof. exact client_connect_starts_clean. Qed.
+
 Print Assumptions C07_status_line_fragments.
 Print Assumptions C07_field_line_fragments.
+Print Assumptions C07_client_connect_starts_clean.
